@@ -814,6 +814,28 @@ func (c *EvalCtx) call(n *Node) Val {
 			}
 		}
 		return mkInt(cnt)
+	case "validator_kinds":
+		// validator_kinds(list): the dynamic types of a []validator, in order, e.g.
+		// "default,string,string"
+		sl, ok := arg(0).(SliceV)
+		if !ok {
+			if op, isOp := arg(0).(Opaque); isOp && strings.HasPrefix(op.Tag, "no-call:") {
+				return lit("(no call)")
+			}
+			specErr(n, "validator_kinds: slice expected")
+		}
+		var ks []string
+		for k := 0; k < sl.Len_; k++ {
+			iv, ok := c.st.load(sl.Arr.sub(sl.Lo + k)).(Iface)
+			if !ok || iv.Dyn == nil {
+				ks = append(ks, "nil")
+				continue
+			}
+			nm := types.TypeString(iv.Dyn, func(p *types.Package) string { return "" })
+			nm = strings.TrimSuffix(strings.TrimPrefix(nm, "*"), "Validator")
+			ks = append(ks, nm)
+		}
+		return lit(strings.Join(ks, ","))
 	case "other_schema":
 		// the other document the scenario loader returns (sgen(@registered))
 		if r, ok := c.st.Ghost["scenario:other-schema"].(Ref); ok {
